@@ -71,7 +71,7 @@ def plan(tier):
 def setup_worker(ctx):
     warnings.simplefilter('ignore')
     ctx.state['reach'] = Reach(REACH).start()
-    ctx.state['inv'] = CIMIntInvariant().start()
+    ctx.state['inv'] = CIMIntInvariant(ctx).start()
     try:
         from lxml import etree
         ctx.state['etree'] = etree
@@ -125,7 +125,7 @@ def parse(kind, xml, obj=None):
 def expected_fp(kind, obj):
     if kind == 'parameter_value':
         return ('list', (('str', obj.name), ('str', obj.type),
-                         fp(obj.value, wire=True)))
+                         fp(obj.value, wire=True, embedded=True)))
     if kind == 'value':
         v = obj[1]
         return ('list', (('str', obj[0]), fp(v, wire=True)))
@@ -302,3 +302,64 @@ def _run(ctx, kind, obj, cdata, detail):
         ctx.outcome('gen2-xml-differs')
         return
     ctx.outcome('ok')
+
+
+# ------------------------------------------------ harvested objects (thorough)
+
+HARVEST_CLASSES = ['CIMInstanceName', 'CIMClassName', 'CIMInstance',
+                   'CIMClass', 'CIMProperty', 'CIMMethod', 'CIMParameter',
+                   'CIMQualifier', 'CIMQualifierDeclaration']
+
+
+def _harvest_setup(ctx):
+    warnings.simplefilter('ignore')
+    try:
+        from lxml import etree
+        ctx.state['etree'] = etree
+    except ImportError:
+        ctx.state['etree'] = None
+
+
+def _judge_harvested(ctx, cls, obj):
+    """The round-trip oracle of this check on an object that the repository's
+    tests constructed, with and without CDATA escaping."""
+    from vf.harvest import KIND, in_domain
+    why = []
+    if not in_domain(obj, why):
+        # inconsistent in itself (the tests build such objects on purpose):
+        # not a CIM object tree in the sense of the statement
+        ctx.outcome('harvested-outside-domain')
+        ctx.count('outside-domain')
+        return
+    kinds = [KIND[cls]]
+    if cls == 'CIMParameter' and obj.value is not None:
+        # a parameter that has a value is a PARAMVALUE; the declaration form
+        # PARAMETER has no place for a value
+        kinds = ['parameter_value']
+    for kind in kinds:
+        for cdata in (False, True):
+            ctx.evaluated()
+            ctx.cls('harvested/%s%s' % (kind, '/cdata' if cdata else ''))
+            detail = {'kind': kind, 'cdata': cdata, 'origin': 'harvested from '
+                      'the repository tests', 'repr': short(repr(obj), 1500)}
+            old = _cim_xml._CDATA_ESCAPING
+            _cim_xml._CDATA_ESCAPING = cdata
+            try:
+                _run(ctx, kind, obj, cdata, detail)
+            finally:
+                _cim_xml._CDATA_ESCAPING = old
+
+
+def post_run(tier, seed, workdir):
+    """Thorough tier: the same oracle on every CIM object that the
+    repository's own unit tests construct (vf/harvest.py)."""
+    if tier != 'thorough':
+        return {}
+    from vf.harvest import judge_harvest
+    return judge_harvest('C01', tier, seed, workdir, _judge_harvested,
+                         HARVEST_CLASSES, setup=_harvest_setup)
+
+
+def replay_harvested(ctx, rec):
+    from vf.harvest import replay_harvested as rh
+    rh(ctx, rec, _judge_harvested)
